@@ -50,10 +50,17 @@ def main():
         meta = {"raw_meta": open(out + "/meta.json").read()}
     dst = os.path.join(V, "seeded", sid)
     os.makedirs(dst, exist_ok=True)
+    keep = {}
+    if os.path.exists(dst + "/meta.json"):
+        try:
+            old = json.load(open(dst + "/meta.json"))
+            keep = {k: old[k] for k in ("first_result", "notes") if old.get(k)}
+        except Exception:
+            pass
     shutil.copy(out + "/patch.diff", dst + "/patch.diff")
     shutil.copy(out + "/demo.py", dst + "/demo.py")
     meta = {"property": prop, "author": "independent sub-agent given only the property text (and what an earlier seed did) and a scratch worktree",
-            **meta, "confirmed_by_lead": res, "detected_by_check": det, "how_reported": how, "notes": ""}
+            **meta, "confirmed_by_lead": res, "detected_by_check": det, "how_reported": how, "notes": "", **keep}
     json.dump(meta, open(dst + "/meta.json", "w"), indent=1)
     print(sid, "| demo /repo:", res["demo_on_unmodified_repo_exit"], "patched:", res["demo_on_patched_exit"], "|", res["test_suite_on_patched"][:60],
           "| diff==patch:", res["worktree_diff_equals_patch"], "| check:", det, "|", how)
